@@ -53,7 +53,7 @@ fn single_incarnation(tier: Tier, chunks: usize, ks: &[usize]) -> Vec<Scenario> 
     let mut v = vec![];
     for k in ks {
         for i in &inits {
-            v.push(Scenario { init: i.clone(), incs: vec![(*k, None)], chunks });
+            v.push(Scenario { init: i.clone(), incs: vec![(*k, None)], chunks, family: 0 });
         }
     }
     v
@@ -72,7 +72,7 @@ fn multi_incarnation(tier: Tier, chunks: usize, dir: &std::path::Path) -> Vec<Sc
     for i in &inits {
         for k1 in &k1s {
             for k2 in &k2s {
-                let base = Scenario { init: i.clone(), incs: vec![(*k1, None), (*k2, None)], chunks };
+                let base = Scenario { init: i.clone(), incs: vec![(*k1, None), (*k2, None)], chunks, family: 0 };
                 v.extend(with_crashes(&base, dir));
             }
         }
@@ -80,7 +80,7 @@ fn multi_incarnation(tier: Tier, chunks: usize, dir: &std::path::Path) -> Vec<Sc
     if tier == Tier::Thorough {
         // three incarnations: crash in the first and in the second
         for i in [Init::Absent, Init::Valid(65534)] {
-            let base = Scenario { init: i.clone(), incs: vec![(1, None), (1, None), (1, None)], chunks };
+            let base = Scenario { init: i.clone(), incs: vec![(1, None), (1, None), (1, None)], chunks, family: 0 };
             for s1 in with_crashes(&base, dir) {
                 // crash positions of the second incarnation: probe its length by recording
                 let mut probe = s1.clone();
@@ -575,6 +575,12 @@ fn run_reader_prop(ctx: &Ctx, prop: Prop, lit: (usize, u64)) -> i32 {
         Prop::C02 | Prop::C03 => {
             plans.push(Plan { works: record_all(single_incarnation(tier, 2, &[1, 2]), &base), mode: Mode::Ra, dev_bound: unb, stop_points: false, full_spin: false, label: "RA, K<=2 updates, 2 record chunks, all read-from choices" });
             plans.push(Plan { works: record_all(single_incarnation(tier, 7, &[1, 2, 3]), &base), mode: Mode::Ra, dev_bound: tier.pick(3, 5), stop_points: false, full_spin: false, label: "RA, K<=3 updates, 7 record words, bounded stale reads" });
+            // publications that differ from their predecessor in the status word only (what the daemon really
+            // publishes while the bound is frozen): a reader that short-cuts on "nothing I look at changed"
+            // would go unnoticed with records that differ everywhere
+            let fam1: Vec<Scenario> = single_incarnation(tier, 2, &[1, 2]).into_iter().map(|mut s| { s.family = 1; s }).collect();
+            plans.push(Plan { works: record_all(fam1.clone(), &base), mode: Mode::Sc, dev_bound: unb, stop_points: false, full_spin: false, label: "SC, K<=2 updates that change the status word only, all interleavings" });
+            plans.push(Plan { works: record_all(fam1, &base), mode: Mode::Ra, dev_bound: tier.pick(3, 5), stop_points: false, full_spin: false, label: "RA, K<=2 updates that change the status word only, bounded stale reads" });
             if prop == Prop::C02 {
                 plans.push(Plan { works: record_all(single_incarnation(tier, 2, &[1, 2]), &base), mode: Mode::Ra, dev_bound: tier.pick(2, 4), stop_points: true, full_spin: true, label: "RA, writer stops for ever at every point (calls that exhaust their retries are run in full), bounded stale reads" });
             }
@@ -813,7 +819,7 @@ fn run_c11(ctx: &Ctx) -> i32 {
     let base = ctx.scratch();
     // all 65535 non-zero start generations x {complete, crash after the first store, crash after the copy} (+ restart and a full update)
     let chunks = 2;
-    let probe = record_trace(&Scenario { init: Init::Valid(2), incs: vec![(1, None)], chunks }, &thread_dir(&base)).unwrap_or_else(|e| machinery_failure(&e));
+    let probe = record_trace(&Scenario { init: Init::Valid(2), incs: vec![(1, None)], chunks, family: 0 }, &thread_dir(&base)).unwrap_or_else(|e| machinery_failure(&e));
     let n_ev = probe.len(); // version store + events of one write()
     let step = ctx.opt_usize("gen_step").unwrap_or(1).max(1);
     let gens: Vec<u32> = (1..65536u32).step_by(step).collect();
@@ -824,9 +830,9 @@ fn run_c11(ctx: &Ctx) -> i32 {
             let g = gens[i] as u16;
             let dir = acc.3.clone();
             let mut succ = vec![];
-            let mut scs = vec![Scenario { init: Init::Valid(g), incs: vec![(1, None)], chunks }];
+            let mut scs = vec![Scenario { init: Init::Valid(g), incs: vec![(1, None)], chunks, family: 0 }];
             for c in 1..n_ev {
-                scs.push(Scenario { init: Init::Valid(g), incs: vec![(1, Some(c)), (1, None)], chunks });
+                scs.push(Scenario { init: Init::Valid(g), incs: vec![(1, Some(c)), (1, None)], chunks, family: 0 });
             }
             for sc in scs {
                 match record_trace(&sc, &dir) {
@@ -859,7 +865,7 @@ fn run_c11(ctx: &Ctx) -> i32 {
     }
     // from a fresh (wiped) segment
     let fresh = record_all(
-        with_crashes(&Scenario { init: Init::Absent, incs: vec![(2, None), (2, None)], chunks }, &thread_dir(&base)),
+        with_crashes(&Scenario { init: Init::Absent, incs: vec![(2, None), (2, None)], chunks, family: 0 }, &thread_dir(&base)),
         &base,
     );
     let mut succ = vec![];
